@@ -36,8 +36,42 @@ func (s c03fragStats) count(k string) {
 }
 
 // fragFloatLit: decimal, exponent and hexadecimal floating-point literals (all exact rationals).
+// fragExtremeLit: a floating-point literal whose magnitude is below the smallest float64 denormal
+// (small=true: decimal exponents -310..-450, hexadecimal exponents -1000..-1400) or above the
+// largest float64 (decimal exponents 300..450, hexadecimal 1000..1400), with a seeded mantissa.
+func (g *c03gen) fragExtremeLit(small bool) *cx {
+	r := g.r
+	var lit string
+	sign := ""
+	if small {
+		sign = "-"
+	}
+	switch r.intn(4) {
+	case 0:
+		lit = fmt.Sprintf("%de%s%d", 1+r.intn(9), sign, 310+r.intn(141))
+	case 1:
+		lit = fmt.Sprintf("%d.%de%s%d", r.intn(10), 1+r.intn(999), sign, 310+r.intn(141))
+	case 2:
+		lit = fmt.Sprintf("0x1p%s%d", sign, 1030+r.intn(371))
+	default:
+		lit = fmt.Sprintf("0x%x.%xp%s%d", 1+r.intn(255), r.intn(16), sign, 1080+r.intn(321))
+	}
+	if !small && r.chance(30) {
+		lit = fmt.Sprintf("%de%d", 1+r.intn(9), 300+r.intn(151)) // includes in-range 1e300..1e308
+	}
+	v := constant.MakeFromLiteral(lit, token.FLOAT, 0)
+	q, ok := constant.Val(v).(*big.Rat)
+	if !ok {
+		panic("c03: extreme literal left the exact regime: " + lit)
+	}
+	return &cx{K: "float", Q: q, Lit: lit}
+}
+
 func (g *c03gen) fragFloatLit() *cx {
 	r := g.r
+	if g.extreme && r.chance(7) {
+		return g.fragExtremeLit(r.bool())
+	}
 	var lit string
 	switch r.intn(14) {
 	case 0:
@@ -147,6 +181,28 @@ func (g *c03gen) fragTree(k string, depth int, st c03fragStats) *cx {
 			ka = "rune"
 		case 5:
 			kc = "rune"
+		}
+		if g.extreme && r.chance(6) {
+			// a sub-expression outside the float64 range (either side) that a further factor or divisor
+			// brings back: x / tiny / huge, x * tiny * huge, huge / huge', x / tiny * tiny', tiny * tiny' / tiny''
+			st.count("inject:rescale")
+			small := r.bool()
+			x := g.fragTree(ka, depth-1, st)
+			a, b := g.fragExtremeLit(small), g.fragExtremeLit(small)
+			switch r.intn(6) {
+			case 0:
+				return bin("/", bin("/", x, a), g.fragExtremeLit(!small))
+			case 1:
+				return bin("*", bin("*", x, a), g.fragExtremeLit(!small))
+			case 2:
+				return bin(r.pick([]string{"*", "+", "-"}), x, paren(bin("/", a, b)))
+			case 3:
+				return bin("*", bin("/", x, a), b)
+			case 4:
+				return bin("/", x, paren(bin("*", a, g.fragExtremeLit(!small))))
+			default:
+				return bin("/", a, paren(bin("*", b, x)))
+			}
 		}
 		switch c := r.intn(100); {
 		case c < 3:
@@ -429,6 +485,17 @@ func fragMeasure(sm *summary, x *c03exact) {
 	} else {
 		sm.count("frag:result:untyped " + x.Kind)
 	}
+	if !x.Rejected && x.Q != nil && x.Q.Sign() != 0 {
+		f, _ := x.Q.Float64()
+		switch {
+		case f == 0:
+			sm.count("frag:magnitude:result below smallest denormal")
+		case f > 1.797e308 || f < -1.797e308:
+			sm.count("frag:magnitude:result above MaxFloat64")
+		default:
+			sm.count("frag:magnitude:result in float64 range")
+		}
+	}
 	sm.count(fmt.Sprintf("frag:depth:%02d", cxDepth(t)))
 	walkCx(t, func(n *cx) {
 		switch n.K {
@@ -440,6 +507,13 @@ func fragMeasure(sm *summary, x *c03exact) {
 		case "paren":
 			sm.count("frag:op:paren")
 		case "float":
+			if n.Q.Sign() != 0 {
+				if f, _ := n.Q.Float64(); f == 0 {
+					sm.count("frag:literal-magnitude:below smallest denormal")
+				} else if f > 1.797e308 {
+					sm.count("frag:literal-magnitude:above MaxFloat64")
+				}
+			}
 			switch {
 			case strings.HasPrefix(n.Lit, "0x"):
 				sm.count("frag:literal:hex-float")
